@@ -2,7 +2,7 @@
 
 S: merge(a,b) ~ merge(b,a) for every unordered kind pair (28 harnesses, payloads symbolic).
 T: merge(merge(a,b),c) ~ merge(a,merge(b,c)) for every kind triple (343 harnesses)."""
-from .. import catalog, kani
+from .. import catalog, kani, mirrun
 
 # quick tier: every triple over the kinds whose merges interact (bytes, word, dyn, conflict, any) is
 # in the thorough tier; quick runs symmetry for all pairs plus the triples containing at least two
@@ -19,6 +19,90 @@ def quick_assoc():
     return out
 
 
+def n_conflicts(name):
+    return name.split("_")[2:].count("conflict")
+
+
+def absorbing_lemma(out):
+    """Engine B on the MIR of `merge`: a Conflict on either side always yields a Conflict (for any partner except the
+    internal `Equal` marker, which panics by design).  This decides every pair / triple of D with two or more conflicts,
+    whose Kani harnesses do not finish (recursive `TypeExpression == TypeExpression` on two conflicts)."""
+    from mirsmt.interp import Agg, Bool, Cell, Lazy, Obj, Ref, Unsupported
+    import z3
+    eng = mirrun.load_engine(out)
+    f = eng.fns.get("merge") or eng.fn("unification::merge")
+    TE = "tc::expression::TypeExpression"
+    n_eq = [0]
+
+    def te_eq(ctx, a, ty, c):
+        n_eq[0] += 1
+        return Bool(z3.Bool("te_eq#%d" % n_eq[0]))
+
+    def conflict_with(ctx, a, ty, c):
+        return Agg(TE, {}, "Conflict")
+
+    def te_clone(ctx, a, ty, c):
+        from mirsmt.summaries import load
+        v = load(ctx, a[0])
+        return v
+    extra = [(r"^<TypeExpression as PartialEq>::eq$", te_eq), (r"^TypeExpression::conflict_with::<.*>$", conflict_with),
+             (r"^<TypeExpression as Clone>::clone$", te_clone)]
+    for side in ("left", "right"):
+        ex = eng.explorer(extra=extra, max_visits=6)
+
+        def body(ctx, side=side):
+            n_eq[0] = 0
+            conflict = Agg(TE, {}, "Conflict")
+            conflict.name = "conflict"
+            other = Lazy(TE, "other")
+            args = [conflict, other] if side == "left" else [other, conflict]
+            st = Cell(Lazy("TypeCheckerState", "state"), "state")
+            r = ctx.run_fn(f, args + [Lazy("TypeVariable", "parent"), Ref(st, (), True)])
+            return r, ctx
+        oid = "L.conflict_absorbs_%s" % side
+        try:
+            paths = ex.explore(body)
+        except Unsupported as e:
+            out.obligation(oid, "mirsmt", "inconclusive", 0, witness=False, note=str(e))
+            out.inconc("%s: %s" % (oid, e))
+            continue
+        bad = None
+        seen = set()
+        for p in paths:
+            other_variant = None
+            for t in p.ctx.trace:
+                if t[0] == "variant" and t[1] == "other":
+                    other_variant = t[2]
+            seen.add(other_variant)
+            if p.kind == "panic":
+                if other_variant != "Equal":
+                    bad = "merge panics with a conflict against %s" % other_variant
+                continue
+            if p.kind != "return":
+                bad = "path ends with %s" % p.kind
+                continue
+            r = p.ret[0]
+            expr = r.fields.get(eng.src.field_index("Merge", "expression")) if isinstance(r, Agg) else None
+            ok = isinstance(expr, Agg) and expr.variant == "Conflict"
+            # `left == right` held (uninterpreted equality): the returned operand equals the conflict
+            eq_true = any(str(c_) == "te_eq#1" for c_ in p.pc)
+            if eq_true and (isinstance(expr, Lazy) or (isinstance(expr, Agg) and getattr(expr, "name", None) in ("other", "conflict"))):
+                ok = True
+            for fld in ("equalities", "judgements", "ty_vars"):
+                v = r.fields.get(eng.src.field_index("Merge", fld))
+                if not (isinstance(v, Obj) and v.kind == "vec" and not v.pushed):
+                    ok = False
+            if not ok:
+                bad = "a conflict merged with %s gives %s" % (other_variant, getattr(expr, "variant", expr))
+        if bad:
+            out.obligation(oid, "mirsmt", "violated-unconfirmed", 0, witness=False, note=bad)
+            out.inconc("%s: %s (no native scenario)" % (oid, bad))
+        else:
+            out.obligation(oid, "mirsmt", "holds", 0, witness=True, paths=len(paths), partners=sorted(x for x in seen if x),
+                           note="merge(Conflict, x) and merge(x, Conflict) are Conflict with no equalities/judgements for every x "
+                                "(panic only for the internal Equal marker)")
+
+
 def run(out, tier):
     out.functions += ["tc::unification::merge", "tc::expression::WordUse::merge"]
     out.bounds += ["evidence domain D of the property (see C15), kinds concrete per harness, payloads symbolic: "
@@ -32,7 +116,10 @@ def run(out, tier):
     out.assumptions += ["intermediate results are re-built constructor by constructor before the next merge "
                         "(identical value except a conflict's payload)",
                         "Packed evidence is outside D"]
-    names = list(catalog.MERGE_SYM)
-    names += catalog.MERGE_ASSOC if tier == "thorough" else quick_assoc()
+    absorbing_lemma(out)
+    names = [n for n in catalog.MERGE_SYM if n_conflicts(n) <= 1]
+    names += [n for n in (catalog.MERGE_ASSOC if tier == "thorough" else quick_assoc()) if n_conflicts(n) <= 1]
+    out.assumptions.append("pairs / triples of D with two or more conflicts are decided by the absorbing lemma L (Engine B on merge's MIR) "
+                           "instead of a Kani harness: with L, both groupings of such a triple are Conflict")
     kani.run_family(out, names + ["merge_twin"], expect_fail=["merge_twin"], tier=tier,
                     timeout_s=300 if tier == "quick" else 900)
